@@ -66,8 +66,11 @@ def run_shard_subprocess(prop: str, spec: Dict[str, Any], workdir: Path, index: 
     log_path = workdir / f'shard{index}.log'
     with open(spec_path, 'w') as f:
         json.dump(spec, f)
-    env = worker_env(spec.get('env'))
+    extra = {k: str(v).replace('{workdir}', str(workdir)).replace('{shard}', str(index))
+             for k, v in (spec.get('env') or {}).items()}
+    env = worker_env(extra)
     env['FJVERIF_WORKDIR'] = str(workdir)
+    env['FJVERIF_SHARD'] = str(index)
     timeout = spec.get('timeout_s', 1500)
     started = time.time()
     cmd = [PYTHON, '-m', 'fjverif.worker', prop, str(spec_path), str(out_path), str(journal_path)]
@@ -77,7 +80,7 @@ def run_shard_subprocess(prop: str, spec: Dict[str, Any], workdir: Path, index: 
         rc: Optional[int] = proc.returncode
     except subprocess.TimeoutExpired:
         rc = None
-    result: Dict[str, Any] = {'shard': index, 'rc': rc, 'wall_s': time.time() - started}
+    result: Dict[str, Any] = {'shard': index, 'rc': rc, 'wall_s': time.time() - started, 'workdir': str(workdir)}
     if out_path.exists():
         with open(out_path) as f:
             result.update(json.load(f))
@@ -116,7 +119,7 @@ def main(argv: Optional[List[str]] = None) -> int:
     try:
         with ThreadPoolExecutor(max_workers=MAX_PARALLEL) as pool:
             results = list(pool.map(lambda item: run_shard_subprocess(prop, item[1], workdir, item[0]), enumerate(specs)))
-        return conclude(prop, check, args.tier, seed, specs, results, started)
+        return conclude(prop, check, args.tier, seed, specs, results, started, workdir)
     finally:
         if not args.keep:
             shutil.rmtree(workdir, ignore_errors=True)
@@ -125,13 +128,16 @@ def main(argv: Optional[List[str]] = None) -> int:
 
 
 def conclude(prop: str, check: Any, tier: str, seed: int, specs: List[Dict[str, Any]], results: List[Dict[str, Any]],
-             started: float) -> int:
+             started: float, workdir: Optional[Path] = None) -> int:
     merged: Dict[str, Any] = {}
     violations: List[Dict[str, Any]] = []
     samples: List[Any] = []
     hashes = set()
     inconclusive: List[str] = []
     evaluations = 0
+    if os.environ.get('VERIF_VERBOSE'):
+        for spec, res in zip(specs, results):
+            print(f'  shard {res["shard"]} kind={spec.get("kind")} rc={res["rc"]} wall={res["wall_s"]:.1f}s')
     for spec, res in zip(specs, results):
         if not res.get('completed'):
             crash = getattr(check, 'shard_crash', None)
@@ -151,6 +157,12 @@ def conclude(prop: str, check: Any, tier: str, seed: int, specs: List[Dict[str, 
         evaluations += int(res.get('evaluations', 0))
         inconclusive.extend(res.get('inconclusive', []))
 
+    post = getattr(check, 'post_process', None)
+    if post is not None and workdir is not None:
+        try:
+            post(workdir, merged)
+        except Exception as exc:  # noqa: B902
+            inconclusive.append(f'post-processing failed: {exc!r}')
     final = check.finalize(tier, seed, merged, evaluations, len(hashes))
     inconclusive.extend(final.get('inconclusive', []))
 
